@@ -1074,7 +1074,7 @@ func parseLambdaDefinition(p *parser, shorthand bool) (Node, error) {
 
 	p.consume(typeBraceOpen, true)
 	body := p.parseExpression(0)
-	p.consume(typeBraceClose, true)
+	p.consume(typeBraceClose, false)
 
 	lambda := &LambdaNode{
 		Body:       body,
